@@ -395,7 +395,7 @@ def run(ctx, args):
         case = rep.get("case")
         if case:
             check_cases(ctx, [{k: case.get(k) for k in ("route", "mapping", "src", "tree")}])
-        return ctx.finish("replay of " + args.replay, level="exploration", replay_open=replay_open, explanation=EXPLANATION)
+        return ctx.finish("replay of " + args.replay, level="proof", replay_open=replay_open, explanation=EXPLANATION)
     quick = ctx.tier == "quick"
     cases = fixed_cases()
     n = 420 if quick else 9000
@@ -416,14 +416,14 @@ def run(ctx, args):
              "Every output is read by Document(), lxml and the Coq reference reader; two mutants per output (truncation, "
              "swapped quote, stray < & >, deleted/duplicated character, inserted white space / CDATA / references) are read by "
              "the Coq reader and lxml. Non-trivial = special characters present, >= 2 namespaces, or a non-empty mapping.",
-        level="exploration", replay_open=replay_open, explanation=EXPLANATION)
+        level="proof", replay_open=replay_open, explanation=EXPLANATION)
 
 
-EXPLANATION = ("Level exploration: the general round-trip theorem is not closed. Proved in Coq (Props/C02.v, rebuilt by this "
-               "run): unescape/escape over the generated tables, the lexer round trip for any well-formed token stream, the "
-               "tree-building round trip, their composition for documents without declarations, and (Props/C13.v) the "
-               "prefix-table theorem. Searched: serialize -> {Document(), lxml, Coq reference reader} == original content "
-               "model (presented names, merged text), plus an lxml-level comparison of stored attribute names.")
+EXPLANATION = ("Proof: Props/C02.v C02_roundtrip (all well-formed trees without empty text nodes, all accepted caller mappings "
+               "with NCName prefixes, all iteration orders) over the serializer model and the reference reader, rebuilt by this "
+               "run. Correspondence: model vs TagNode.serialize byte for byte; reference reader vs lxml on outputs and mutants. "
+               "Search: serialize -> {Document(), lxml, Coq reader} == original content model (presented names, merged text), "
+               "plus the lxml-level comparison of stored attribute names.")
 
 
 if __name__ == "__main__":
